@@ -14,10 +14,10 @@ impl Check for C05 {
     fn phases(&self, tier: Tier, b: f64) -> Vec<Phase> {
         let q = tier == Tier::Quick;
         vec![
-            Phase { name: "random tuples (5 contexts, protected [built|wire], AAD, plaintext) through every Enc_structure-producing helper of the three carriers", cases: scale(if q { 5000 } else { 250000 }, b), exhaustive: false },
+            Phase { name: "random tuples (5 contexts, protected [built|wire], AAD, plaintext) through every Enc_structure-producing helper of the three carriers", cases: scale(if q { 40000 } else { 250000 }, b), exhaustive: false },
             Phase { name: "AAD length-class grid", cases: 16, exhaustive: true },
-            Phase { name: "carriers decoded from non-canonical wire forms (recipient standalone, nested to depth 2 in COSE_Encrypt, Encrypt, Encrypt0)", cases: scale(if q { 8000 } else { 400000 }, b), exhaustive: false },
-            Phase { name: "adversarial near-collisions: context text prefixes, AAD that looks like a protected header", cases: scale(if q { 1500 } else { 60000 }, b), exhaustive: false },
+            Phase { name: "carriers decoded from non-canonical wire forms (recipient standalone, nested to depth 2 in COSE_Encrypt, Encrypt, Encrypt0)", cases: scale(if q { 64000 } else { 400000 }, b), exhaustive: false },
+            Phase { name: "adversarial near-collisions: context text prefixes, AAD that looks like a protected header", cases: scale(if q { 12000 } else { 60000 }, b), exhaustive: false },
         ]
     }
     fn run_case(&self, ctx: &mut Ctx, phase: usize, idx: u64) {
